@@ -52,3 +52,41 @@ package chord
 //@   ensures word: r.state.v == pack(0, initial)
 //@   ensures history: r.history.keys[0] && r.history.m[0] == initial
 //@   ensures history-only-zero: forall k uint64 :: r.history.keys[k] ==> k == 0
+
+// ---- C09 / C01: lookups
+
+//@ pure (*LocalNode).ID
+
+//@ func (n *LocalNode) closestPrecedingNode(key uint64) (r chord.VNode)
+//@   arith bv
+//@   use ids48
+//@   opt inline=fingerRangeView,computeView
+//@   requires n.ID() < 1<<48 && key < 1<<48
+//@   ensures non-nil: r != nil
+//@   ensures self-or-strictly-between: r == n || between48(n.ID(), r.ID(), key, false)
+//@   loop fingerRangeView/k: invariant index: 0 <= k && k <= 48
+//@   loop fingerRangeView/k: invariant candidate: finger == nil || between48(n.ID(), finger.ID(), key, false)
+
+//@ func (n *LocalNode) FindSuccessor(key uint64) (r chord.VNode, err error)
+//@   arith bv
+//@   use ids48
+//@   opt recursion=lookup
+//@   opt inline=checkNodeState,getPredecessor,getSuccessor
+//@   requires n.ID() < 1<<48 && key < 1<<48 && n.state != nil
+//@   modifies nodeState.state
+//@   decreases dist48(n.ID() + 1, key)
+//@   ensures non-nil-result: err == nil ==> r != nil
+
+// ---- C08: a join request is answered in every neighbour-pointer state
+
+//@ func (n *LocalNode) RequestToJoin(joiner chord.VNode) (pred chord.VNode, succs []chord.VNode, err error)
+//@   opt frame=off
+//@   use ids48
+//@   safety nil,bounds,assert,panic
+//@   requires valid-joiner: joiner != nil && n.ID() < 281474976710656 && joiner.ID() < 281474976710656
+//@   requires started: n.state != nil && n.state.history != nil
+//@   ghost local bool = false
+//@   at call Lock#1: ghost local := true
+//@   ensures local-handling-is-success-or-retryable: local ==> (err == nil || chord.retryableChord(err))
+//@   ensures success-hands-over: (local && err == nil) ==> (len(succs) >= 1 && n.predecessor == joiner && n.surrogate == joiner)
+//@   ensures refusal-changes-no-pointer: (local && err != nil) ==> (n.predecessor == old(n.predecessor) && n.surrogate == old(n.surrogate))
